@@ -125,6 +125,7 @@ def open_diff(ref, got, d=None):
 
 def run_case(case):
     cfg = case['cfg']
+    fresh_open(cfg)          # must be computed before this case's simulator exists
     d = Driver(cfg, model=False)
     d.apply(['boot'])
     for ch in case['choices']:
@@ -136,6 +137,7 @@ def run_case(case):
 
 def run_explicit(case):
     cfg = case['cfg']
+    fresh_open(cfg)
     d = Driver(cfg, model=False)
     for ev in case['events']:
         if list(ev) not in d.enabled():
